@@ -47,7 +47,7 @@ func Generate(genseed uint64, stream string, thorough bool) *Case {
 			break
 		}
 	}
-	if stream != "twin" && r.Chance(1, 4) {
+	if stream != "twin" && stream != "mount" && r.Chance(1, 4) {
 		addBlobTwin(r, g)
 	}
 	c := &Case{Stream: stream, Graph: g.Encode(), MapRoot: -1, FailNode: -1, GenSeed: genseed, Seed: r.U64(), Thorough: thorough}
@@ -155,6 +155,34 @@ func Generate(genseed uint64, stream string, thorough bool) *Case {
 			}
 		}
 		c.Dst = common.Pick(r, []string{"mem", "oci", "oci", "ocire"})
+	case "mount":
+		// Mounter destination + MountFrom candidates.  A ReferencePusher root must be a manifest
+		// (a blob root falling back inside Mount is outside the model: PreCopy answers SkipNode
+		// there and the real Mount fails); a Tagger blob root that gets mounted is the known
+		// finding "mounted-root-untagged".
+		c.Mount = true
+		c.MapRoot, c.Platform = -1, ""
+		if c.Mode == "r" && !g.Nodes[c.Root].IsManifest() {
+			if len(manifests) > 0 {
+				c.Root = common.Pick(r, manifests)
+			} else {
+				c.Mode = "t"
+			}
+		}
+		if r.Chance(1, 5) {
+			reach := g.Reach(c.Root)
+			var ids []int
+			for k := range reach {
+				if !set[k] && !g.Nodes[k].IsManifest() && !(k == c.Root && c.Mode != "g") {
+					ids = append(ids, k)
+				}
+			}
+			sort.Ints(ids)
+			if len(ids) > 0 {
+				c.FailNode = common.Pick(r, ids)
+				c.FailCb = common.Pick(r, []string{"mountfrom", "mounted", "pre", "post"})
+			}
+		}
 	case "cbfail":
 		c.MapRoot, c.Platform = -1, ""
 		reach := g.Reach(c.Root)
